@@ -94,6 +94,13 @@ FIXED = {
                                                    {"A": "", "B": "", "S": ""},
                                                    force={"o": ("value", S), "o/x": ("value", G), "o/y": ("value", G), "o/nx": ("null", G), "o/l": ("value", S)},
                                                    lists={"o/l": (3, True, None)}),
+    # a field shared by a fragment nested in a failing fragment and by an unrelated root fragment that succeeds
+    "shared-nested-in-failing-and-root": fixed('query Q { b ... @defer(label:"A") { nn ... @defer(label:"C") { a } } ... @defer(label:"D") { a slow } }',
+                                               {"A": "", "C": "A", "D": ""},
+                                               force={"b": ("value", S), "nn": ("null", G), "a": ("value", G), "slow": ("value", G)}),
+    "shared-nested-in-failing-and-root-object": fixed('query Q { b ... @defer(label:"A") { nn ... @defer(label:"C") { o { x } } } ... @defer(label:"D") { o { x ... @defer(label:"E") { y } } slow } }',
+                                                      {"A": "", "C": "A", "D": "", "E": "D"},
+                                                      force={"b": ("value", S), "nn": ("raise", G), "o": ("value", G), "slow": ("value", G), "o/x": ("value", S), "o/y": ("value", G)}),
     # a field shared by a fragment that fails and by a fragment nested in a sibling that succeeds
     "shared-field-failing-and-nested-sibling": fixed('query Q { o { y2: y ... @defer(label:"A") { x nx } ... @defer(label:"B") { slow: y ... @defer(label:"C") { x } } } }',
                                                      {"A": "", "B": "", "C": "B"},
